@@ -4,6 +4,7 @@
 PID=$1; M=$2; shift 2
 CHECKS=${@:-$PID}
 SRC=/tmp/mut/out/$PID/$M
+[ -f $SRC/patch.diff ] || SRC=/verif/seeded/$PID-$M
 SCR=/tmp/mutv/${PID}_$M
 export GOFLAGS= GOPROXY=off GOSUMDB=off GOTOOLCHAIN=local
 [ -f $SRC/patch.diff ] || { echo "no patch at $SRC"; exit 2; }
@@ -28,8 +29,11 @@ echo "CONFIRM $PID/$M: $conf (demo $demo in $place)"
 # run the checks against /repo
 cd /repo && git apply $SRC/patch.diff || { echo "cannot apply to /repo"; exit 4; }
 cd /verif
+EVSAVE=$(mktemp -d /root/evsave.XXXX); cp -a evidence/. $EVSAVE/   # evidence must come from clean-tree runs only
 for c in $CHECKS; do
   out=$(python3 tools/check.py $c 2>&1 | grep -E "^VIOLATION|^KNOWN|quick:" | head -3)
   echo "  check $c: $(echo "$out" | tr '\n' ' ' | cut -c1-300)"
 done
 git -C /repo checkout -- . ; git -C /repo status --short | head -3
+cp -a $EVSAVE/. evidence/; rm -rf $EVSAVE
+./tools/build.sh >/dev/null 2>&1   # harness/Gen back to the clean tree
